@@ -54,47 +54,75 @@ def r1(ctx, rep):
             loc = n
     if loc is None:
         raise AnchorMissing("resolve_special_func: `let (kind, start, end) = if ..` of the window transform")
-    chain = if_chain(loc["init"])
-    conds = [c for c, _ in chain]
-    want_conds = ["expanding", "(rolling > 0)", "!range_is_empty(&rows)", "!range_is_empty(&range)", None]
-    rep.check(conds == want_conds, "precedence",
-              f"the window parameters must be tried in the order expanding, rolling, rows, range, none; found {conds}", file=f["file"], line=loc["l"], fn=f["path"])
+    # the decision is read as a truth table over (expanding, rolling > 0, rows given, range given): the first parameter given, in that order,
+    # decides - however the chain is written (else-if, nested, branches the other way round)
+    import boolfn
+    import alpha
+    import itertools
+    A = alpha.Inliner(f)
     names = ["expanding", "rolling", "rows", "range", "none"]
-    for (c, blk), name in zip(chain, names):
-        t = tail_expr(blk)
+    msgs = {"expanding": "expanding must be rows:..0 (unbounded preceding to the current row)",
+            "rolling": "rolling:n must be rows:(1-n)..0 (the current row and the n-1 rows before it)",
+            "rows": "rows:a..b must be passed through as (Rows, a, b)",
+            "range": "range:a..b must be passed through as (Range, a, b)",
+            "none": "no window parameter means the whole partition: (Rows, None, None)"}
+
+    def bound(b):
+        s_ = show(b)
+        if s_ == "None":
+            return None
+        if b.get("k") == "call" and show(b["f"]) == "Some":
+            try:
+                return linear.norm(linear.linear(b["a"][0]))
+            except linear.NotLinear:
+                return ("?", s_)
+        return ("expr", s_)
+    failed, unreadable = {}, None
+    for E, R, RW, RG in itertools.product((True, False), repeat=4):
+        def atom(t, E=E, R=R, RW=RW, RG=RG):
+            t = t.replace(" ", "").replace("(", "").replace(")", "")
+            if t == "expanding":
+                return E
+            if t in ("rolling>0", "0<rolling", "rolling>=1", "rolling!=0"):
+                return R
+            if t in ("rolling<=0", "rolling==0", "rolling<1"):
+                return not R
+            if t == "range_is_empty&rows":
+                return not RW
+            if t == "range_is_empty&range":
+                return not RG
+            return None
+        want = "expanding" if E else "rolling" if R else "rows" if RW else "range" if RG else "none"
+        try:
+            t = boolfn.leaf(loc["init"], atom, A)
+        except boolfn.Unknown as e:
+            unreadable = str(e)
+            break
         if t is None or t.get("k") != "tuple" or len(t["e"]) != 3:
-            rep.bad(f"row:{name}", f"branch `{c}` does not produce a (kind, start, end) tuple", file=f["file"], line=blk.get("l"), fn=f["path"])
+            failed.setdefault(want, (t.get("l") if t else loc["l"], f"the decision does not end in a (kind, start, end) tuple: {show(t)[:60]}"))
             continue
         kind, start, end = t["e"]
         kind_s = last_seg(show(kind))
-
-        def bound(b):
-            s = show(b)
-            if s == "None":
-                return None
-            if b.get("k") == "call" and show(b["f"]) == "Some":
-                try:
-                    return linear.norm(linear.linear(b["a"][0]))
-                except linear.NotLinear:
-                    return ("?", s)
-            return ("expr", s)
         bs, be = bound(start), bound(end)
-        if name == "expanding":
+        if want == "expanding":
             ok = kind_s == "Rows" and bs is None and be == ()
-            msg = "expanding must be rows:..0 (unbounded preceding to the current row)"
-        elif name == "rolling":
+        elif want == "rolling":
             ok = kind_s == "Rows" and bs == (("", 1), ("rolling", -1)) and be == ()
-            msg = "rolling:n must be rows:(1-n)..0 (the current row and the n-1 rows before it)"
-        elif name == "rows":
+        elif want == "rows":
             ok = kind_s == "Rows" and bs == ("expr", "rows.0") and be == ("expr", "rows.1")
-            msg = "rows:a..b must be passed through as (Rows, a, b)"
-        elif name == "range":
+        elif want == "range":
             ok = kind_s == "Range" and bs == ("expr", "range.0") and be == ("expr", "range.1")
-            msg = "range:a..b must be passed through as (Range, a, b)"
         else:
             ok = kind_s == "Rows" and bs is None and be is None
-            msg = "no window parameter means the whole partition: (Rows, None, None)"
-        rep.check(ok, f"row:{name}", f"{msg}; found ({kind_s}, {show(start)}, {show(end)})", file=f["file"], line=t["l"], fn=f["path"])
+        if not ok:
+            given = [n_ for n_, v in zip(names, (E, R, RW, RG)) if v] or ["none"]
+            failed.setdefault(want, (t["l"], f"with {' + '.join(given)} given: found ({kind_s}, {show(start)}, {show(end)})"))
+    rep.check(unreadable is None, "precedence", f"the window parameters must be decided by tests of expanding, rolling > 0, range_is_empty(&rows), range_is_empty(&range); not readable: {unreadable}",
+              file=f["file"], line=loc["l"], fn=f["path"])
+    for name in names:
+        bad = failed.get(name)
+        rep.check(bad is None, f"row:{name}", f"{msgs[name]} - and the parameters are tried in the order expanding, rolling, rows, range; {bad[1] if bad else ''}",
+                  file=f["file"], line=bad[0] if bad else loc["l"], fn=f["path"])
 
 
 def r2(ctx, rep):
